@@ -331,7 +331,7 @@ def classify_exception(e):
     if isinstance(e, pexc.KmipOperationFailure):
         return ('raise', 'FPie', e.status, e.reason, e.message)
     if isinstance(e, cexc.OperationFailure):
-        return ('raise', 'FCore', e.status, e.reason, str(e))
+        return ('raise', 'FCore', e.status, e.reason, e.args[0] if e.args else None)
     return ('other', type(e).__name__, str(e)[:160])
 
 
@@ -783,7 +783,7 @@ def proxy_observe(fn):
     try:
         r = fn()
     except cexc.OperationFailure as e:
-        return ('fail', e.status, e.reason, str(e))
+        return ('fail', e.status, e.reason, e.args[0] if e.args else None)
     except Exception as e:
         return ('exc', type(e).__name__, str(e)[:160])
     if isinstance(r, kresults.OperationResult):
